@@ -353,6 +353,18 @@ fn build_corpus() -> Corpus {
     let mut twice = hid_stream(3, Command::Cbor, 130, 9);
     twice.extend(hid_stream(3, Command::Ping, 61, 10));
     hid_streams.push(twice);
+    // 600 initialisation packets on pairwise different channels, each announcing 65535 bytes
+    // and never continued: what the receiver retains must stay in proportion to what it was sent
+    let mut many = Vec::new();
+    for ch in 0..600u32 {
+        let mut p = vec![0x77u8; 64];
+        p[..4].copy_from_slice(&(0x4000_0000 + ch).to_ne_bytes());
+        p[4] = 0x90;
+        p[5] = 0xff;
+        p[6] = 0xff;
+        many.push(p);
+    }
+    hid_streams.push(many);
     // a hand-made stream no honest sender produces: BCNT 65535 followed by 300 continuations
     let mut long = Vec::new();
     let mut init = vec![0u8; 64];
